@@ -468,6 +468,22 @@ def check(pid, tier, seed):
             violations += 1
             if violations <= 10:
                 lines.append(f"VIOLATION property={pid} replay={path}   # clauses {sorted(set('/'.join(c) for c in clauses))} at event {l}")
+    # the repository's own tests as a driver: their executions are validated event by event
+    repo = None
+    if pid in QUERY_PROPS or pid in ("C04", "C05"):
+        rb, passed = world.repo_test_traces({pid})
+        rfails, rst = tlc.validate_traces(rb, timeout=sz["tr_timeout"])
+        repo = {"tests_passed_under_recorder": passed, "converter_traces": len(rb["traces"]), "events": rst["events"],
+                "answers": sum(len(r["a"]) for t in rb["traces"] for e in t["events"] for r in e["pt"] + e["ppt"]), "failed_clauses": {}}
+        for tid, l, clause in rfails:
+            tags = clause_tags(clause) | ({"C05"} if pid == "C05" and clause[0] == "ans" else set())
+            key = "/".join(clause)
+            repo["failed_clauses"][key] = repo["failed_clauses"].get(key, 0) + 1
+            if pid in tags:
+                violations += 1
+                if violations <= 10:
+                    path = replay_file(pid, tid, l, clause, [{"k": "repo-test-trace", "trace": tid, "event": rb["traces"][tid - 1]["events"][l - 1]["op"]}], 0, {})
+                    lines.append(f"VIOLATION property={pid} replay={path}   # clause {key} in trace {tid} recorded from the repository's own tests")
     n_ans = sum(len(r["a"]) for t in batch["traces"] for e in t["events"] for r in e["pt"] + e["ppt"])
     n_events = sum(len(t["events"]) for t in batch["traces"])
     kinds = {}
@@ -478,14 +494,14 @@ def check(pid, tier, seed):
     distinct = len({json.dumps(o, sort_keys=True) for o in oplists})
     cov = {
         "states": sum(m["distinct"] for m in models), "transitions": sum(m["generated"] for m in models),
-        "traces_validated_against_impl": len(oplists),
+        "traces_validated_against_impl": len(oplists) + (repo["converter_traces"] if repo else 0),
         "samples": [oplists[n_cex]] + ([oplists[-1]] if len(oplists) > n_cex + 1 else []),
         "evaluations": n_ans, "distinct_nontrivial": distinct,
         "rule": "evaluations = query answers of the implementation compared with the specification; distinct_nontrivial = "
                 "distinct operation lists executed on the implementation (each creates at least one converter and is followed by a probe table)",
         "exhaustive": all(not m["violated"] for m in models),
         "models": models, "trace_events": n_events, "event_kinds": kinds,
-        "behaviours_from_tlc": n_hist, "spec_signature_coverage": STRATA.get(pid), "behaviours_random": len(oplists) - n_hist - n_cex,
+        "repository_tests_as_driver": repo, "behaviours_from_tlc": n_hist, "spec_signature_coverage": STRATA.get(pid), "behaviours_random": len(oplists) - n_hist - n_cex,
         "concretisations": CMAPS[tier], "trace_validation": st,
         "other_clauses_failed": other, "known_findings": [k["id"] for k in known],
         "checker_cmd": "tlc -workers 16 spec/mc/MC_*.tla ; TRACE_FILE=<batch> tlc spec/Trace.tla",
